@@ -129,6 +129,17 @@ def pairing_harness(nctx, n, embedding, method, batch_size=None):
             else:
                 lp2 = flow.log_prob(s)
             return s, lp, lp2
+        if method == "sample_again_after_context_overwrite":
+            # history: sample once, the caller then overwrites the SAME context tensor in place with new values, sample again:
+            # the second draw must be made under the new values (no memo keyed on the tensor object may survive)
+            flow.sample(n, context=c)
+            cnew = h.inp("context_new", (nctx, 2))
+            with torch.no_grad():
+                c.copy_(cnew)
+            h.c = cnew
+            ctx.notes["random_draws"] = []
+            ctx.writes.clear() if hasattr(ctx.writes, "clear") else None
+            return (flow.sample(n, context=c),)
         return (flow.sample(n, context=c, batch_size=batch_size),)
 
     def post(h, ctx, value):
@@ -196,6 +207,15 @@ def pairing_harness(nctx, n, embedding, method, batch_size=None):
         torch.manual_seed(int(inp.get("seed", 0)))
         if method == "sample_and_log_prob":
             return fl.sample_and_log_prob(n, context=c), fl, c
+        if method == "sample_again_after_context_overwrite":
+            fl.sample(n, context=c)
+            with torch.no_grad():
+                c.copy_(torch.tensor(np.asarray(inp["context_new"]), dtype=torch.float32))
+            torch.manual_seed(7)
+            got = fl.sample(n, context=c)
+            torch.manual_seed(7)
+            want = native_flow().sample(n, context=c.clone())
+            return (got, want), fl, c
         return (fl.sample(n, context=c, batch_size=batch_size),), fl, c
 
     def native_clauses(h, inp, r):
@@ -203,6 +223,8 @@ def pairing_harness(nctx, n, embedding, method, batch_size=None):
         s = res[0]
         want_shape = (nctx, n, Dn) if nctx else (n, Dn)
         out = {"C18.sample-shape": tuple(s.shape) == want_shape}
+        if method == "sample_again_after_context_overwrite":
+            out["C04.sample-is-inverse-of-own-noise-under-own-context-row"] = bool(torch.allclose(res[0], res[1], atol=1e-6))
         if method == "sample_and_log_prob" and tuple(s.shape) == want_shape:
             lp = res[1]
             out["C18.log_prob-shape"] = tuple(lp.shape) == want_shape[:-1]
@@ -213,7 +235,7 @@ def pairing_harness(nctx, n, embedding, method, batch_size=None):
             out["C04.returned-density-is-log_prob-of-the-sample"] = tuple(lp.shape) == tuple(lp2.shape) and bool(torch.allclose(lp, lp2, atol=1e-4))
         return out
     hn = Harness(f"flow_pairing[{method},ctx_rows={nctx},n={n},embedding={embedding}{',batch_size=' + str(batch_size) if batch_size else ''}]", run, post, native_call=native_call, native_clauses=native_clauses,
-                 sample=lambda h, rng: {"context": rng.normal(size=(max(nctx, 1), 2)), "seed": np.array(int(rng.integers(0, 1000)))},
+                 sample=lambda h, rng: {"context": rng.normal(size=(max(nctx, 1), 2)), "context_new": rng.normal(size=(max(nctx, 1), 2)) + 3.0, "seed": np.array(int(rng.integers(0, 1000)))},
                  functions=[Flow._sample, Flow.sample_and_log_prob, Flow._log_prob, Distribution.sample, Distribution.log_prob, Distribution.sample_and_log_prob,
                             DN.StandardNormal._sample, DN.StandardNormal._log_prob])
     hn.native_float32 = False
@@ -226,6 +248,7 @@ def pairing_harness(nctx, n, embedding, method, batch_size=None):
 def make_dist(kind):
     if kind == "StandardNormal": return DN.StandardNormal([Dn]), False
     if kind == "StandardNormal2x2": return DN.StandardNormal([2, 2]), False
+    if kind == "StandardNormalScalar": return DN.StandardNormal([]), False
     if kind == "ConditionalDiagonalNormal": return DN.ConditionalDiagonalNormal([Dn]), True
     if kind == "DiagonalNormal": return DN.DiagonalNormal([Dn]), False
     if kind == "ConditionalIndependentBernoulli": return DD.ConditionalIndependentBernoulli([Dn]), True
@@ -262,6 +285,9 @@ def interface_harness(kind, tier):
             if c:
                 xb = h.inp(f"xbad{c}", (c + 1,) + ev)
                 attempt(("log_prob_mismatch", c), lambda: d.log_prob(xb, context=cx))
+                # the same check for a context that is not yet a tensor (array / nested list)
+                attempt(("log_prob_mismatch_array", c), lambda: d.log_prob(xb, context=np.zeros((c, cw), dtype=np.float32)))
+                attempt(("log_prob_mismatch_list", c), lambda: d.log_prob(xb, context=[[0.0] * cw for _ in range(c)]))
             for n in ns:
                 for bs in bss:
                     attempt(("sample", c, n, bs), lambda: d.sample(n, context=cx, batch_size=bs))
@@ -277,7 +303,7 @@ def interface_harness(kind, tier):
         if kind == "DiagonalNormal" and k in ("sample", "sample_and_log_prob"):
             return ("raise", "NotImplementedError")      # sampling is not offered by this class
         if k == "log_prob": return ("ret", (key[2],))
-        if k == "log_prob_mismatch": return ("raise", "ValueError")
+        if k.startswith("log_prob_mismatch"): return ("raise", "ValueError")
         if k == "sample":
             c, n = key[1], key[2]
             return ("ret", ((c, n) if c else (n,)) + ev)
@@ -329,6 +355,8 @@ def interface_harness(kind, tier):
             attempt(("log_prob", c, rows), lambda: d.log_prob(x, context=cx))
             if c:
                 attempt(("log_prob_mismatch", c), lambda: d.log_prob(torch.randn(c + 1, *ev), context=cx))
+                attempt(("log_prob_mismatch_array", c), lambda: d.log_prob(torch.randn(c + 1, *ev), context=np.zeros((c, cw), dtype=np.float32)))
+                attempt(("log_prob_mismatch_list", c), lambda: d.log_prob(torch.randn(c + 1, *ev), context=[[0.0] * cw for _ in range(c)]))
             for n in ns:
                 for bs in bss:
                     attempt(("sample", c, n, bs), lambda: d.sample(n, context=cx, batch_size=bs))
@@ -353,13 +381,14 @@ def pairing_harnesses(tier):
                     hs.append(pairing_harness(nctx, n, emb, method))
         for nctx, n in ((1, 2), (2, 1), (2, 3)):
             hs.append(conditional_base_harness(method, nctx, n))
+    hs.append(pairing_harness(2, 2, True, "sample_again_after_context_overwrite"))
     for nctx, n, bs in (((2, 3, 2), (0, 3, 2), (2, 2, 1)) if tier == "quick" else ((2, 3, 2), (0, 3, 2), (2, 2, 1), (3, 5, 2), (2, 4, 4), (1, 3, 2), (2, 5, 3))):
         hs.append(pairing_harness(nctx, n, bool(nctx), "sample", batch_size=bs))
     return hs
 
 
 def interface_harnesses(tier):
-    return [interface_harness(k, tier) for k in ("StandardNormal", "StandardNormal2x2", "ConditionalDiagonalNormal", "DiagonalNormal", "ConditionalIndependentBernoulli",
+    return [interface_harness(k, tier) for k in ("StandardNormal", "StandardNormalScalar", "StandardNormal2x2", "ConditionalDiagonalNormal", "DiagonalNormal", "ConditionalIndependentBernoulli",
                                                   "Flow", "FlowEmbedding", "FlowConditionalBase")]
 
 
@@ -410,8 +439,8 @@ def normal_harness(kind, ev, ctx_shape=None):
     def post(h, ctx, value):
         lp, mean, smp = value
         px = P(h.inputs["x"])
-        ensure(h, ctx, "C05.log_prob-shape", z3.BoolVal(tuple(P(lp).shape) == (B,)))
-        for b in range(B):
+        ensure(h, ctx, "C05.log_prob-shape", z3.BoolVal(tuple(P(lp).shape) == (B,)), meta={"got": list(P(lp).shape)})
+        for b in (range(B) if tuple(P(lp).shape) == (B,) else ()):
             mu, ls = params(h, b)
             ensure(h, ctx, "C05.log_prob-is-gaussian-density", P(lp)[b] == gaussian_lp(list(np.asarray(px[b], dtype=object).reshape(-1)), mu, ls))
         ok_type = isinstance(mean, torch.Tensor)
